@@ -13,20 +13,34 @@ I = z3.IntVal
 class ExprMixin:
     # ------------------------------------------------------------------ heap reads with store-chain peeling
     def rd(self, st, key, ref):
-        """Select(heap[key], ref), skipping stores to references the path condition proves distinct from ref."""
-        arr = st.h(key)
-        cur = arr
-        for _ in range(12):
-            if not (z3.is_app(cur) and cur.decl().kind() == z3.Z3_OP_STORE):
-                break
-            base, idx, val = cur.children()
-            if idx.eq(ref):
-                return val
-            if self.distinct_refs(idx, ref, st):
-                cur = base
-                continue
-            return z3.Select(cur, ref)
-        return z3.Select(cur, ref)
+        """Select(heap[key], ref), skipping stores to references the path condition proves distinct from ref and
+        distributing over merged (if-then-else) heaps; identical branch results collapse."""
+        memo = {}
+
+        def go(cur, depth):
+            k = cur.get_id()
+            if k in memo:
+                return memo[k]
+            r = None
+            if z3.is_app(cur) and depth < 40:
+                kind = cur.decl().kind()
+                if kind == z3.Z3_OP_STORE:
+                    base, idx, val = cur.children()
+                    if idx.eq(ref):
+                        r = val
+                    elif self.distinct_refs(idx, ref, st):
+                        r = go(base, depth + 1)
+                    elif not self.involves_bound([ref]):
+                        r = z3.If(idx == ref, val, go(base, depth + 1))
+                elif kind == z3.Z3_OP_ITE:
+                    c, a, b = cur.children()
+                    ra, rb = go(a, depth + 1), go(b, depth + 1)
+                    r = ra if ra.eq(rb) else z3.If(c, ra, rb)
+            if r is None:
+                r = z3.Select(cur, ref)
+            memo[k] = r
+            return r
+        return go(st.h(key), 0)
 
     def distinct_refs(self, a, b, st):
         key = (a.get_id(), b.get_id(), len(st.pc))
@@ -177,7 +191,8 @@ class ExprMixin:
         return coerce(a, t).z == coerce(b, t).z
 
     def eq_hook(self, a, b, st):
-        return None
+        h = getattr(self.eng.prop, 'hook_eq', None)
+        return h(self, a, b, st) if h else None
 
     # ------------------------------------------------------------------ main dispatcher
     def ev(self, n, st):
@@ -321,9 +336,10 @@ class ExprMixin:
         sb.assume(z3.Not(c), True)
         a = self.ev(n.body, sa)
         b = self.ev(n.orelse, sb)
-        for e in sa.pc[len(st.pc) + 1:]:
+        n0 = len(st.pc)
+        for e in sa.pc[n0 + 1:]:
             st.assume(z3.Implies(c, e))
-        for e in sb.pc[len(st.pc) + 1:]:
+        for e in sb.pc[n0 + 1:]:
             st.assume(z3.Implies(z3.Not(c), e))
         keys = set(sa.heap) | set(sb.heap)
         for k in keys:
@@ -338,7 +354,15 @@ class ExprMixin:
         b = self.ev(n.right, st)
         return self.binop(n.op, a, b, st, n)
 
+    def unwrap_opt(self, v, st):
+        """Operand of an arithmetic / ordering operator: None raises TypeError, otherwise the payload."""
+        if isinstance(v.t, T.Opt) and not v.t.reflike:
+            self.raise_if(st, v.t.is_none(v.z), 'TypeError', 'operator on None')
+            return SV(v.t.t, v.t.val(v.z))
+        return v
+
     def binop(self, op, a, b, st, n=None):
+        a, b = self.unwrap_opt(a, st), self.unwrap_opt(b, st)
         ta, tb = a.t, b.t
         num = (T._Int, T._Real, T._Bool)
         if isinstance(op, ast.Mod) and isinstance(ta, T._Str):
@@ -481,6 +505,7 @@ class ExprMixin:
             r = self.contains(b, a, st)
             return r if isinstance(op, ast.In) else z3.Not(r)
         num = (T._Int, T._Real, T._Bool)
+        a, b = self.unwrap_opt(a, st), self.unwrap_opt(b, st)
         if isinstance(a.t, num) and isinstance(b.t, num):
             t = T.Real if (isinstance(a.t, T._Real) or isinstance(b.t, T._Real)) else T.Int
             x, y = coerce(a, t).z, coerce(b, t).z
@@ -510,7 +535,8 @@ class ExprMixin:
         raise Unsupported('comparison op')
 
     def cmp_hook(self, op, a, b, st):
-        return None
+        h = getattr(self.eng.prop, 'hook_cmp', None)
+        return h(self, op, a, b, st) if h else None
 
     def identical(self, a, b):
         if is_none(a) and is_none(b):
@@ -756,6 +782,7 @@ class ExprMixin:
             # map: result[k] = f(s[k])
             k = z3.Int(fresh_name('k'))
             self.bound.append(self.bind_target(g.target, SV(s.t.elem, z3.Select(seq_arr(s), k))))
+            self.qvars.append([k])
             was = self.spec
             self.spec = True
             try:
@@ -763,6 +790,7 @@ class ExprMixin:
             finally:
                 self.spec = was
                 self.bound.pop()
+                self.qvars.pop()
             r = mk_seq(e.t, seq_len(s), z3.Lambda([k], e.z))
             return r if self.spec else self.new_list_from_seq(r, st)
         # filter (with optional map): introduce a fresh sequence characterised by the FILTER spec axioms
